@@ -1,57 +1,126 @@
-import Mathlib.Tactic.Ring
-import Mathlib.Tactic.FieldSimp
-import Mathlib.Tactic.Linarith
-import Mathlib.Algebra.Order.Field.Basic
+import Mathlib.Tactic.NormNum
+import Mathlib.Tactic.Push
+import Mathlib.Data.Rat.Defs
+import IndicatifModel.Proofs.EstimatorBridge
 
 /-!
-# C09 — Rate and ETA estimator laws (algebraic core)
+# C09 — Rate and ETA estimator laws
 
-The recurrences of `Estimator::record` / `steps_per_second` over an arbitrary ordered field with a
-multiplicative weight function `w` (`w 0 = 1`, `w (a+b) = w a · w b`, `0 < w t < 1` for `t > 0`);
-`0.1 ^ (t / 15)` over the reals is such a function. `Model/Estimator.lean` runs the same formulas on
-`Float` for the correspondence with the `f64` implementation.
+The theorems are about `Model/Estimator.lean`'s `record`, `reset` and `stepsPerSecond` — the very
+definitions the driver executes on `Float` against the crate — instantiated with the exact arithmetic
+of an ordered field `α` and a weight function `W` (`w 0 = 1`, `w (a+b) = w a · w b`, `0 < w t`,
+`w t < 1` for `t > 0`; the code's `0.1 ^ (t / 15)` over the reals is one). What separates the
+theorems from the code is therefore floating-point rounding and libm's `pow` (trusted base).
+
+Time is `Nat` nanoseconds, positions are `Nat`.
 -/
 namespace IndicatifModel.EstimatorLaws
+open IndicatifModel.Estimator
 variable {α : Type} [Field α] [LinearOrder α] [IsStrictOrderedRing α]
 
-structure Weight (α : Type) [Field α] [LinearOrder α] [IsStrictOrderedRing α] where
-  w : α → α
-  w_zero : w 0 = 1
-  w_add : ∀ a b, w (a + b) = w a * w b
-  w_pos : ∀ a, 0 < w a
-  w_lt_one : ∀ a, 0 < a → w a < 1
+/-- **Steady progress.** Samples arriving at any cadence (gaps `dt_i > 0` ns, `ds_i > 0` steps) whose
+rate is exactly `r` steps per second each: right at the last sample the reported rate is `r`. -/
+theorem C09_steady (W : Weight α) (r : α) (t0 : Nat) (hist : List (Nat × Nat)) (hne : hist ≠ [])
+    (hpos : ∀ p ∈ hist, 0 < p.1 ∧ 0 < p.2)
+    (hrate : ∀ p ∈ hist, ((p.1 : Nat) : α) / secs (fieldOps W) p.2 = r) :
+    let e := hist.foldl (feed W) (new (fieldOps W) t0)
+    stepsPerSecond (fieldOps W) e e.prevTime = r := by
+  intro e
+  have h := steady_fold W r hist (new (fieldOps W) t0) (steady_new W r t0) hpos hrate
+  obtain ⟨hst, hgrow, hstart, _⟩ := h
+  have hT : (new (fieldOps W) t0).prevTime < e.prevTime := hgrow hne
+  exact steady_query W r e hst (by
+    have h0 : e.startTime = (new (fieldOps W) t0).startTime := hstart
+    simp only [new] at hT h0
+    omega)
 
-structure Est (α : Type) where
-  s : α      -- smoothed
-  d : α      -- double smoothed
-  T : α      -- time since start at last sample
-deriving Repr
+/-- **Finite, non-negative and bounded.** Along *any* sequence of `record` calls (including calls that
+record nothing and backwards seeks, which reset), if every sample that is taken has a rate in
+`[0, M]`, then at every query instant strictly after the start / the last reset the denominators are
+non-zero and the reported rate lies in `[0, M]`. -/
+theorem C09_bounded (W : Weight α) (M : α) (hM : 0 ≤ M) (calls : List (Nat × Nat)) (e0 : Estimator.Est α)
+    (hg : Good W M e0) (hs : SamplesLe W M e0 calls) (q : Nat) :
+    let e := calls.foldl (fun e c => Estimator.record (fieldOps W) e c.1 c.2) e0
+    e.prevTime ≤ q → e.startTime < q →
+    (1 - W.w (secs (fieldOps W) (q - e.startTime)) ≠ 0) ∧
+    0 ≤ stepsPerSecond (fieldOps W) e q ∧ stepsPerSecond (fieldOps W) e q ≤ M := by
+  intro e hq1 hq2
+  have hge : Good W M e := good_fold W M calls e0 hg hs
+  exact good_query W M hM e hge q hq1 hq2
 
-/-- one sample of duration dt at rate r (steps/sec) -/
-def record (W : Weight α) (e : Est α) (dt r : α) : Est α :=
-  let wt := W.w dt
-  let s' := e.s * wt + r * (1 - wt)
-  let T' := e.T + dt
-  let norm := s' / (1 - W.w T')
-  { s := s', d := e.d * wt + norm * (1 - wt), T := T' }
+/-- a fresh estimator is `Good` for every bound -/
+theorem C09_new_good (W : Weight α) (M : α) (t0 : Nat) : Good W M (new (fieldOps W) t0) := good_new W M t0
 
-def sps (W : Weight α) (e : Est α) (δ : α) : α :=
-  let rw := W.w δ
-  let tw := 1 - W.w (e.T + δ)
-  let sp := e.s * rw / tw
-  (e.d * rw + sp * (1 - rw)) / tw
+/-- **Decay during a stall — `_partial`.** If at the last sample the raw first-level average does not
+exceed the raw second-level one (`smoothed ≤ doubleSmoothed`; in particular for every steady history,
+where they are equal), the reported rate never rises while no further sample arrives: later query,
+smaller or equal rate.
 
-theorem steady_step (W : Weight α) (e : Est α) (dt r : α) (hdt : 0 < dt) (hT : 0 ≤ e.T)
-    (hs : e.s = r * (1 - W.w e.T)) (hd : e.d = r * (1 - W.w e.T)) :
-    (record W e dt r).s = r * (1 - W.w (e.T + dt)) ∧ (record W e dt r).d = r * (1 - W.w (e.T + dt)) := by
-  have hpos : 0 < e.T + dt := by linarith
-  have hne : (1 - W.w (e.T + dt)) ≠ 0 := by
-    have := W.w_lt_one _ hpos
-    intro h; linarith
-  constructor
-  · simp only [record, hs, W.w_add]; ring
-  · simp only [record, hs, hd]
-    rw [W.w_add] at hne ⊢
-    field_simp
-    ring
+The full statement (monotone decay after *every* history) is false for the code and for this model —
+`C09_stall_rise_witness` — and is listed as finding F20. -/
+theorem C09_stall_decay_partial (W : Weight α) (e : Estimator.Est α) (h0 : 0 ≤ e.smoothed) (hsd : e.smoothed ≤ e.doubleSmoothed)
+    (hst : e.startTime < e.prevTime) (q1 q2 : Nat) (h1 : e.prevTime ≤ q1) (h12 : q1 ≤ q2) :
+    stepsPerSecond (fieldOps W) e q2 ≤ stepsPerSecond (fieldOps W) e q1 := by
+  rw [sps_abs W e q1 (by omega) h1, sps_abs W e q2 (by omega) (by omega)]
+  apply sps_antitone W (abs W e)
+  · exact secs_pos W _ (by omega)
+  · exact h0
+  · exact hsd
+  · exact secs_nonneg W _
+  · exact secs_mono W _ _ (by omega)
+
+/-- **The rate can rise during a stall** (finding F20): with more weight in the first-level average than
+in the second-level one (`s = 4`, `d = 1`, half of the total weight already decayed, `c = w T = 1/2`)
+the reported value grows from `2` right at the last sample to `22/9` by the time `w δ = 1/2`. -/
+theorem C09_stall_rise_witness :
+    spsU (4 : ℚ) 1 (1/2) 1 = 2 ∧ spsU (4 : ℚ) 1 (1/2) (1/2) = 22/9 ∧
+    spsU (4 : ℚ) 1 (1/2) 1 < spsU (4 : ℚ) 1 (1/2) (1/2) := by
+  simp only [spsU]
+  norm_num
+
+/-- … and it tends to zero all the same: for every history the reported rate is at most
+`(d + s / (1 − c)) · u / (1 − c)` with `u = w δ → 0` -/
+theorem C09_stall_limit (s d c u : α) (hs : 0 ≤ s) (hd : 0 ≤ d) (hc0 : 0 ≤ c) (hc : c < 1) (hu0 : 0 < u) (hu : u ≤ 1) :
+    spsU s d c u ≤ (d + s / (1 - c)) * u / (1 - c) := by
+  have h1c : 0 < 1 - c := by linarith
+  have hcu : 0 < 1 - c * u := by nlinarith
+  have hle : 1 - c ≤ 1 - c * u := by nlinarith
+  simp only [spsU]
+  have hA : s * u / (1 - c * u) * (1 - u) ≤ s / (1 - c) * u := by
+    have e1 : s * u / (1 - c * u) ≤ s * u / (1 - c) := div_le_div_of_nonneg_left (mul_nonneg hs (le_of_lt hu0)) h1c hle
+    have e2 : s * u / (1 - c * u) * (1 - u) ≤ s * u / (1 - c * u) * 1 :=
+      mul_le_mul_of_nonneg_left (by linarith) (div_nonneg (mul_nonneg hs (le_of_lt hu0)) (le_of_lt hcu))
+    calc s * u / (1 - c * u) * (1 - u) ≤ s * u / (1 - c * u) := by simpa using e2
+      _ ≤ s * u / (1 - c) := e1
+      _ = s / (1 - c) * u := by ring
+  have hnum : d * u + s * u / (1 - c * u) * (1 - u) ≤ (d + s / (1 - c)) * u := by
+    have : (d + s / (1 - c)) * u = d * u + s / (1 - c) * u := by ring
+    rw [this]; linarith
+  have hnn : 0 ≤ (d + s / (1 - c)) * u := mul_nonneg (add_nonneg hd (div_nonneg hs (le_of_lt h1c))) (le_of_lt hu0)
+  calc (d * u + s * u / (1 - c * u) * (1 - u)) / (1 - c * u)
+      ≤ (d + s / (1 - c)) * u / (1 - c * u) := div_le_div_of_nonneg_right hnum (le_of_lt hcu)
+    _ ≤ (d + s / (1 - c)) * u / (1 - c) := div_le_div_of_nonneg_left hnn h1c hle
+
 end IndicatifModel.EstimatorLaws
+
+namespace IndicatifModel.Estimator
+
+/-- **Reset forgets.** After `reset_eta` / `reset` at time `now` with the bar at position `p` (the
+repaired `BarState::reset` sets `prev_steps` to the current position first), every later sequence of
+`record` calls behaves exactly like the same sequence, with positions counted from `p`, on an estimator
+created at `now`: the state is the fresh one shifted by `p`, so every reported rate is identical.
+Holds for any arithmetic (`Ops α`), in particular for `Float`. -/
+theorem C09_reset_forgets {α : Type} (o : Ops α) (e : Est α) (p now : Nat) (calls : List (Nat × Nat)) (q : Nat) :
+    let after := calls.foldl (fun e c => record o e (c.1 + p) c.2) (reset o { e with prevSteps := p } now)
+    let fresh := calls.foldl (fun e c => record o e c.1 c.2) (new o now)
+    after = shift p fresh ∧ stepsPerSecond o after q = stepsPerSecond o fresh q := by
+  intro after fresh
+  have h0 : reset o { e with prevSteps := p } now = shift p (new o now) := by
+    simp [reset, new, shift]
+  have h : after = shift p fresh := by
+    show calls.foldl (fun e c => record o e (c.1 + p) c.2) (reset o { e with prevSteps := p } now) = _
+    rw [h0]
+    exact fold_shift o p calls (new o now)
+  exact ⟨h, by rw [h]; rfl⟩
+
+end IndicatifModel.Estimator
